@@ -132,7 +132,11 @@ package lexer
 //@     ==> result1 == nil && l.in.lb == longest(l.in.src, sigStart(l.in.src, old(l.in.lb)))
 //@         && result0.Terminal == kindName(kindAt(l.in.src, sigStart(l.in.src, old(l.in.lb))))
 //@         && result0.Pos == posAt(l.in, sigStart(l.in.src, old(l.in.lb)))
-//@   ensures @lexeme sigStart(l.in.src, old(l.in.lb)) < len(l.in.src) && kindAt(l.in.src, sigStart(l.in.src, old(l.in.lb))) >= 0 ==>
-//@        (kindIsLiteral(kindAt(l.in.src, sigStart(l.in.src, old(l.in.lb)))) ==> result0.Lexeme == kindName(kindAt(l.in.src, sigStart(l.in.src, old(l.in.lb)))))
-//@     && (kindAt(l.in.src, sigStart(l.in.src, old(l.in.lb))) == kindSTRING() || kindAt(l.in.src, sigStart(l.in.src, old(l.in.lb))) == kindREGEX() ==> result0.Lexeme == lexText(l.in.src, sigStart(l.in.src, old(l.in.lb)) + 1, longest(l.in.src, sigStart(l.in.src, old(l.in.lb))) - 1))
-//@     && (!kindIsLiteral(kindAt(l.in.src, sigStart(l.in.src, old(l.in.lb)))) && kindAt(l.in.src, sigStart(l.in.src, old(l.in.lb))) != kindSTRING() && kindAt(l.in.src, sigStart(l.in.src, old(l.in.lb))) != kindREGEX() ==> result0.Lexeme == lexText(l.in.src, sigStart(l.in.src, old(l.in.lb)), longest(l.in.src, sigStart(l.in.src, old(l.in.lb)))))
+//@   ensures @lexeme-literal sigStart(l.in.src, old(l.in.lb)) < len(l.in.src) && kindAt(l.in.src, sigStart(l.in.src, old(l.in.lb))) >= 0
+//@     && kindIsLiteral(kindAt(l.in.src, sigStart(l.in.src, old(l.in.lb)))) ==> result0.Lexeme == kindName(kindAt(l.in.src, sigStart(l.in.src, old(l.in.lb))))
+//@   ensures @lexeme-delimited sigStart(l.in.src, old(l.in.lb)) < len(l.in.src)
+//@     && (kindAt(l.in.src, sigStart(l.in.src, old(l.in.lb))) == kindSTRING() || kindAt(l.in.src, sigStart(l.in.src, old(l.in.lb))) == kindREGEX())
+//@     ==> result0.Lexeme == lexText(l.in.src, sigStart(l.in.src, old(l.in.lb)) + 1, longest(l.in.src, sigStart(l.in.src, old(l.in.lb))) - 1)
+//@   ensures @lexeme-text sigStart(l.in.src, old(l.in.lb)) < len(l.in.src) && kindAt(l.in.src, sigStart(l.in.src, old(l.in.lb))) >= 0
+//@     && !kindIsLiteral(kindAt(l.in.src, sigStart(l.in.src, old(l.in.lb)))) && kindAt(l.in.src, sigStart(l.in.src, old(l.in.lb))) != kindSTRING() && kindAt(l.in.src, sigStart(l.in.src, old(l.in.lb))) != kindREGEX()
+//@     ==> result0.Lexeme == lexText(l.in.src, sigStart(l.in.src, old(l.in.lb)), longest(l.in.src, sigStart(l.in.src, old(l.in.lb))))
